@@ -75,6 +75,10 @@ func (s *Set) Add(a rune) {
 
 // AddRange adds to a set.
 func (s *Set) AddRange(begin, end rune) {
+	if begin > end {
+		// an inverted range has no members
+		return
+	}
 	beginNode := &s.Head
 	for beginNode.Forward != nil && begin > beginNode.Forward.End {
 		beginNode = beginNode.Forward
